@@ -192,7 +192,8 @@ def _hostmaskPatternEqual(pattern, hostmask):
             else:
                 fd.write(re.escape(c))
         fd.write('$')
-        f = re.compile(fd.getvalue(), re.I).match
+        # re.A: only ASCII letters have a case, as in the rest of IRC.
+        f = re.compile(fd.getvalue(), re.I | re.A).match
         _patternCache[pattern] = f
         return f(hostmask) is not None
 
